@@ -73,10 +73,6 @@ Proof.
   destruct nd; reflexivity.
 Qed.
 
-Theorem source_params_version_matches (g s d nd : bool) (name : str) :
-  Z.of_N (params_version {| p_gen := g; p_star := s; p_delimited := d; p_nd := nd; p_name := name |}) =
-  (if nd then 2 else 1).
-Proof. unfold params_version. cbn. destruct nd; reflexivity. Qed.
 End Params.
 
 Print Assumptions source_preset_is_model.
